@@ -78,7 +78,7 @@ CHECKS = {
    technique="deterministic simulation: seeded operation histories with injected failed decodes and buffer scribbles, compared against a fresh-message reference"),
  "C05": dict(level="exploration", ref="DESIGN.md section 4 (C05)",
    text="Decides the first sentence of the property. The nondeterminism a marshal can see is put under the simulator's control: Go map hash seeds and iteration offsets (runtime seam, re-seeded before every marshal), construction history, lazy state, and process restarts. One seeded content is realised as 10-16 messages through different histories (other map hash seeds, Clone, Merge, eager / lazy-unexpanded / lazy-expanded decode, decode from a legal non-minimal encoding, field-by-field rebuild in shuffled order with set-clear-set, delete-reinsert and grow-past-8-then-shrink detours, dynamicpb variants) and marshalled with Deterministic under several map seeds and, for a share of scenarios, in re-executions of the same binary. All encodings within one concrete type must be byte-identical.",
-   note="The converse clause (identical deterministic bytes imply proto.Equal) is a pure input property and is not decided. Sampling of contents and histories; a divergence that does not replay would mean nondeterminism from outside the seams and is itself reported.",
+   note="The converse clause (identical deterministic bytes imply proto.Equal) is checked over the same construction histories (all variants of one content, once seen to encode identically, must be Equal in both argument orders); arbitrary unrelated input pairs with colliding encodings are not searched for. Sampling of contents and histories; a divergence that does not replay would mean nondeterminism from outside the seams and is itself reported.",
    technique="deterministic simulation: seeded construction histories, seeded Go map iteration order and process restarts; byte-equality oracle within each concrete type"),
  "C40": dict(level="exploration", ref="DESIGN.md section 4 (C40)",
    text="Seeded CodeGeneratorRequests over the ~100 linked files (1-4 files to generate, dependencies in topological order, seeded parameter strings) are run in-process the way protoc-gen-go's main does under 8 seeds of the Go map iteration order (runtime seam), once with file_to_generate permuted, and 2-3 times through the real protoc-gen-go binary built from the working tree with the same seam, each in a fresh process with a different process-wide map seed (request on stdin, response from stdout). Responses must be byte-identical; under permutation the set of (name, content) pairs must be identical.",
